@@ -319,6 +319,19 @@ def _parenthesize_nested_connector(expression: exp.Expr, parent: exp.Expr | None
     return expression
 
 
+def _parenthesize_lifted_operand(expression: exp.Expr, parent: exp.Expr | None) -> exp.Expr:
+    """
+    A function argument is delimited by the call syntax. When it replaces the call (e.g. a CASE
+    branch, COALESCE(x) -> x) under an operator, wrap it so that the generated SQL keeps its grouping.
+    """
+    if isinstance(expression, (exp.Binary, exp.Unary, exp.Between, exp.In)) and isinstance(
+        parent, (exp.Binary, exp.Unary, exp.Between, exp.In)
+    ):
+        return exp.paren(expression, copy=False)
+
+    return expression
+
+
 def always_true(expression: object) -> bool:
     return (isinstance(expression, exp.Boolean) and expression.this) or (
         isinstance(expression, exp.Literal) and expression.is_number and not is_zero(expression)
@@ -1326,7 +1339,7 @@ class Simplifier:
             # COALESCE is also used as a Spark partitioning hint
             and not isinstance(expression.parent, exp.Hint)
         ):
-            return expression.this
+            return _parenthesize_lifted_operand(expression.this, expression.parent)
 
         if self.dialect.COALESCE_COMPARISON_NON_STANDARD:
             return expression
@@ -1424,6 +1437,7 @@ class Simplifier:
     @annotate_types_on_change
     def simplify_conditionals(self, expression):
         """Simplifies expressions like IF, CASE if their condition is statically known."""
+        parent = expression.parent
         if isinstance(expression, exp.Case):
             this = expression.this
             for case in expression.args["ifs"]:
@@ -1433,17 +1447,21 @@ class Simplifier:
                     cond = cond.replace(this.pop().eq(cond))
 
                 if always_true(cond):
-                    return case.args["true"]
+                    return _parenthesize_lifted_operand(case.args["true"], parent)
 
                 if always_false(cond):
                     case.pop()
                     if not expression.args["ifs"]:
-                        return expression.args.get("default") or exp.null()
-        elif isinstance(expression, exp.If) and not isinstance(expression.parent, exp.Case):
+                        return _parenthesize_lifted_operand(
+                            expression.args.get("default") or exp.null(), parent
+                        )
+        elif isinstance(expression, exp.If) and not isinstance(parent, exp.Case):
             if always_true(expression.this):
-                return expression.args["true"]
+                return _parenthesize_lifted_operand(expression.args["true"], parent)
             if always_false(expression.this):
-                return expression.args.get("false") or exp.null()
+                return _parenthesize_lifted_operand(
+                    expression.args.get("false") or exp.null(), parent
+                )
 
         return expression
 
